@@ -134,7 +134,7 @@ def stream_bookmarks(run, rng, n):
     coq = [coq_bm_case(c, st, o) for c, (st, o) in zip(cases, outs)]
     try:
         masks = common.eval_cases('c18bm', PRE_BM, 'list (list (Z * (Z * bool))) * (nat + list itree)', coq,
-                                  'bookmark_judge')
+                                  'bookmark_judge', per_file=max(40, len(coq) // 15))
     except RuntimeError as exc:
         run.oblige('corr:bookmarks-direct', False, str(exc))
         return
@@ -243,7 +243,7 @@ def stream_outlines(run, rng, n):
         coq.append(coq_ol_case(c['forest'], o['page_refs'], o['n0'], o['items'], o['root']))
         kept.append((c, o))
     try:
-        masks = common.eval_cases('c18ol', PRE_OL, OL_TYPE, coq, 'outline_judge')
+        masks = common.eval_cases('c18ol', PRE_OL, OL_TYPE, coq, 'outline_judge', per_file=max(30, len(coq) // 15))
     except RuntimeError as exc:
         run.oblige('corr:outlines-direct', False, str(exc))
         return
@@ -350,7 +350,8 @@ def stream_links(run, rng, n):
         coq.append(coq_lk_case(c, o))
         kept.append((c, o))
     try:
-        masks = common.eval_cases('c18lk', PRE_LK, 'list box * list (list link * list anchor) * list Z', coq, 'links_judge')
+        masks = common.eval_cases('c18lk', PRE_LK, 'list box * list (list link * list anchor) * list Z', coq, 'links_judge',
+                                  per_file=max(40, len(coq) // 15))
     except RuntimeError as exc:
         run.oblige('corr:links-direct', False, str(exc))
         return
@@ -566,7 +567,7 @@ def stream_dates(run, rng, n):
         coq.append('(%s, %s)' % (coq_groups(g), 'None' if out is None else '(Some %s%%string)' % slit(out)))
         kept.append((g, s, out, st, o))
     try:
-        masks = common.eval_cases('c18dt', PRE_DT, 'groups * option string', coq, 'date_judge')
+        masks = common.eval_cases('c18dt', PRE_DT, 'groups * option string', coq, 'date_judge', per_file=max(40, len(coq) // 15))
     except RuntimeError as exc:
         run.oblige('corr:dates-direct', False, str(exc))
         return
@@ -606,7 +607,7 @@ def stream_dates(run, rng, n):
                      signature='date-valid-rejected')
             break
     run.count('dates-direct', len(fields) + len(bad),
-              [(g['month'] is None, g['day'] is None, g['hour'] is None, g['second'], g['frac'], g['tz'], g['year'])
+              [(g['month'] is None, g['day'] is None, g['hour'] is None, g['second'], g['frac'], tuple(g['tz']) if g['tz'] else None, g['year'])
                for g in fields] + [('bad', s) for s in bad], samples=[strings[0], strings[-1], bad[0]])
     run.stream_info('dates-direct', rule='six W3C formats: 7 zones x 5 seconds/fraction shapes x 2 times exhaustively, years '
                     '0/1/999/1000/9999, then random fields with boundary values (month/day 00 as the regex allows), a third '
@@ -1078,11 +1079,11 @@ def check(run):
                         'object numbering of add_outlines is modelled as preorder allocation (validated on every case)',
                         'URL resolution, pydyf string encoding, attachment fetching: monitored through full renders only']
     k = 10 if thorough else 1
-    stream_bookmarks(run, rng, 1200 * k)
-    stream_outlines(run, rng, 600 * k)
-    stream_links(run, rng, 800 * k)
+    stream_bookmarks(run, rng, 1000 * k)
+    stream_outlines(run, rng, 500 * k)
+    stream_links(run, rng, 700 * k)
     stream_dates(run, rng, 400 * k)
-    stream_render(run, rng, 240 * k)
+    stream_render(run, rng, 200 * k)
 
 
 def replay(data):
